@@ -278,9 +278,15 @@ func specMBR(d *pmtDescriptor) uint64 {
 
 // ---------------------------------------------------------------- C05/C06: PMT section walk (safety and termination)
 
+// specES0: offset of the first elementary-stream entry of a PMT section (after program_info).
+func specES0(b []byte) int { return 12 + int(b[10]%16)*256 + int(b[11]) }
+
+// specESPid: the 13-bit elementary PID of the entry at offset o.
+func specESPid(b []byte, o int) int { return int(b[o+1]%32)*256 + int(b[o+2]) }
+
 //@ func NewPmtElementaryStream(streamType uint8, elementaryPid int, descriptors []PmtDescriptor) PmtElementaryStream
 //@   props C05 C06
-//@   ensures result != nil
+//@   ensures result != nil && esOf(result) != nil && fresh(esOf(result)) && esOf(result).elementaryPid == elementaryPid && len(esOf(result).descriptors) == len(descriptors)
 //@   modifies nothing
 
 //@ func PmtAccumulatorDoneFunc(b []byte) (done bool, err error)
@@ -305,14 +311,27 @@ func specMBR(d *pmtDescriptor) uint64 {
 //@   props C05 C06
 //@   requires p != nil && len(pmtBytes) >= 3 && len(pmtBytes) == 3+int(pmtBytes[1]%4)*256+int(pmtBytes[2])
 //@   ensures len(pmtBytes) <= 11 ==> result == gots.ErrPMTParse
+//@   ensures result == nil ==> len(pmtBytes) > 11 && p.versionNumber == (pmtBytes[5]/2)%32 && p.currentNextIndicator == (pmtBytes[5]%2 == 1)
+//@   ensures result == nil ==> len(p.pids) == len(p.elementaryStreams)
+//@   ensures result == nil && specES0(pmtBytes) < len(pmtBytes)-8 ==> len(p.pids) >= 1 && p.pids[0] == specESPid(pmtBytes, specES0(pmtBytes)) && esOf(p.elementaryStreams[0]) != nil && esOf(p.elementaryStreams[0]).elementaryPid == specESPid(pmtBytes, specES0(pmtBytes))
+//@   ensures result == nil && specES0(pmtBytes) >= len(pmtBytes)-8 ==> len(p.pids) == 0
 //@   modifies *p
 //@   loop 1 (offset uint16, pids []int, elementaryStreams []PmtElementaryStream)
 //@     invariant offset >= 12
 //@     invariant (cap(pids) == 0 || fresh(pids)) && (cap(elementaryStreams) == 0 || fresh(elementaryStreams))
+//@     invariant len(pids) >= 1 ==> pids[0] == specESPid(pmtBytes, specES0(pmtBytes))
+//@     invariant len(elementaryStreams) >= 1 ==> esOf(elementaryStreams[0]) != nil && esOf(elementaryStreams[0]).elementaryPid == specESPid(pmtBytes, specES0(pmtBytes))
+//@     invariant len(pids) == 0 ==> int(offset) == specES0(pmtBytes)
+//@     invariant len(pids) >= 1 ==> specES0(pmtBytes) < len(pmtBytes)-8
+//@     invariant len(pids) == len(elementaryStreams) && p.versionNumber == (pmtBytes[5]/2)%32 && p.currentNextIndicator == (pmtBytes[5]%2 == 1)
 //@     decreases 70000 - int(offset)
-//@   loop 2 (descriptorOffset uint16, offset uint16, infoLength uint16, descriptors []PmtDescriptor)
+//@   loop 2 (descriptorOffset uint16, offset uint16, infoLength uint16, descriptors []PmtDescriptor, pids []int, elementaryStreams []PmtElementaryStream)
 //@     invariant int(infoLength)+int(offset) < len(pmtBytes) && infoLength < 4096 && offset >= 12
 //@     invariant cap(descriptors) == 0 || fresh(descriptors)
+//@     invariant cap(descriptors) == 0 || cap(elementaryStreams) == 0 || verifSeparate(descriptors, elementaryStreams)
+//@     invariant pids[0] == specESPid(pmtBytes, specES0(pmtBytes))
+//@     invariant len(elementaryStreams) >= 1 ==> esOf(elementaryStreams[0]) != nil && esOf(elementaryStreams[0]).elementaryPid == specESPid(pmtBytes, specES0(pmtBytes))
+//@     invariant len(pids) == len(elementaryStreams)+1 && p.versionNumber == (pmtBytes[5]/2)%32 && p.currentNextIndicator == (pmtBytes[5]%2 == 1)
 //@     decreases 70000 - int(descriptorOffset)
 
 //@ func NewPMT(pmtBytes []byte) (x PMT, err error)
